@@ -7,7 +7,9 @@
 #include <string.h>
 #include <stdlib.h>
 
-enum { OP_FAST_OVER, OP_GENERAL_ATOP, OP_SAME_TWICE, OP_FILL, OP_REGION, OP_TRAP, OP_SHARED_SRC, OP_GRADIENT, OP_SHARED_GRADIENT, OP_SHARED_CLIPPED_SRC, OP_SHARED_ACCESSOR_SRC, OP_TILE_FILL, OP_SHARED_TILE_SRC, OP_SHARED_TILE_MASK, N_BODY_OPS };
+enum { OP_FAST_OVER, OP_GENERAL_ATOP, OP_SAME_TWICE, OP_FILL, OP_REGION, OP_TRAP, OP_SHARED_SRC, OP_GRADIENT, OP_SHARED_GRADIENT, OP_SHARED_CLIPPED_SRC, OP_SHARED_ACCESSOR_SRC, OP_TILE_FILL, OP_SHARED_TILE_SRC, OP_SHARED_TILE_MASK, N_BODY_OPS,
+       /* free-running pass only (rows of thousands of pixels are too many scheduling points for the explorer) */
+       OP_WIDE_ROW_NARROW = N_BODY_OPS, OP_WIDE_ROW_FLOAT, OP_WIDE_ROW_MALLOC, N_ALL_OPS };
 static const char *body_op_name[N_BODY_OPS] = { "fast-path OVER 8888->8888", "general-path ATOP 8888->0565", "same ADD composite twice (cache hit)", "pixman_fill + fill_rectangles",
                                                 "region32 union/subtract", "rasterize_trapezoid a8", "OVER from the shared source", "linear gradient SRC (general iterators)", "SRC from the shared 4-stop gradient (per-thread origin)",
                                                 "OVER from the shared source that has a two-box client clip with source clipping (per-thread offset)",
@@ -30,9 +32,15 @@ typedef struct {
     pixman_image_t *shared_src, *shared_grad, *shared_clipped, *shared_acc, *shared_tile;
     uint32_t dwide[2][40]; pixman_image_t *dstwide;
     uint32_t *tile8, *tile16; int tile_ix;       /* one buffer for all threads: 2 rows of TILE_STRIDE_WORDS words; the thread with tile index k owns columns [1+3k, 4+3k) (8 bpp) / [1+2k, 3+2k) (16 bpp) */
+    /* private rows wider than the general path's on-stack scanline buffers (8192 bytes per scanline): whatever scratch the library uses
+     * instead must not be shared between threads */
+    uint32_t *wsrc, *wdst; pixman_image_t *wsrc_img, *wdst16_img, *wdst10_img, *wdst32_img;
     int tid;
     uint64_t digest;
 } tctx_t;
+#define WIDE_NARROW 2100
+#define WIDE_FLOAT 600
+#define WIDE_MALLOC 5000
 
 static inline uint64_t body_hash(const void *p, size_t n, uint64_t h)
 {
@@ -104,17 +112,30 @@ static void body_setup(tctx_t *t, int tid, pixman_image_t *shared_src)
     t->dstwide = pixman_image_create_bits(PIXMAN_a8r8g8b8, 40, 2, &t->dwide[0][0], 160);
     pixman_region32_init_rect(&t->reg, tid, 0, 4, 3);
     t->shared_src = shared_src;
+    t->wsrc = malloc(WIDE_MALLOC * 4); t->wdst = malloc(WIDE_MALLOC * 4);
+    for (int i = 0; i < WIDE_MALLOC; i++) { t->wsrc[i] = 0x80604020u + (unsigned)(i * 7 + tid) * 0x00010101u; t->wdst[i] = 0x40302010u + (unsigned)(i * 3 + tid) * 0x01010100u; }
+    t->wsrc_img = pixman_image_create_bits(PIXMAN_a8r8g8b8, WIDE_MALLOC, 1, t->wsrc, WIDE_MALLOC * 4);
+    t->wdst16_img = pixman_image_create_bits(PIXMAN_r5g6b5, WIDE_MALLOC, 1, t->wdst, WIDE_MALLOC * 4);
+    t->wdst10_img = pixman_image_create_bits(PIXMAN_a2r10g10b10, WIDE_MALLOC, 1, t->wdst, WIDE_MALLOC * 4);
+    t->wdst32_img = pixman_image_create_bits(PIXMAN_a8r8g8b8, WIDE_MALLOC, 1, t->wdst, WIDE_MALLOC * 4);
 }
 static void body_teardown(tctx_t *t)
 {
     pixman_image_unref(t->dst32); pixman_image_unref(t->dst16); pixman_image_unref(t->dst8); pixman_image_unref(t->src32); pixman_image_unref(t->grad); pixman_image_unref(t->dstwide);
     pixman_region32_fini(&t->reg);
+    pixman_image_unref(t->wsrc_img); pixman_image_unref(t->wdst16_img); pixman_image_unref(t->wdst10_img); pixman_image_unref(t->wdst32_img); free(t->wsrc); free(t->wdst);
 }
 
 /* worker thread: one operation */
 static void body_run(tctx_t *t, int op)
 {
     switch (op) {
+    case OP_WIDE_ROW_NARROW:       /* general path, 8-bit pipeline, 2100 pixels: 8400 bytes per scanline */
+        pixman_image_composite32(PIXMAN_OP_ATOP, t->wsrc_img, NULL, t->wdst16_img, 0, 0, 0, 0, 0, 0, WIDE_NARROW, 1); break;
+    case OP_WIDE_ROW_FLOAT:        /* float pipeline, 600 pixels: 9600 bytes per scanline */
+        pixman_image_composite32(PIXMAN_OP_OVER, t->wsrc_img, NULL, t->wdst10_img, 0, 0, 0, 0, 0, 0, WIDE_FLOAT, 1); break;
+    case OP_WIDE_ROW_MALLOC:       /* 5000 pixels with an operator evaluated in float: 80000 bytes per scanline */
+        pixman_image_composite32(PIXMAN_OP_DISJOINT_OVER, t->wsrc_img, NULL, t->wdst32_img, 0, 0, 0, 0, 0, 0, WIDE_MALLOC, 1); break;
     case OP_FAST_OVER:
         pixman_image_composite32(PIXMAN_OP_OVER, t->src32, NULL, t->dst32, 0, 0, 0, 0, 0, 0, DW, DH); break;
     case OP_GENERAL_ATOP:
